@@ -16,6 +16,10 @@
 #include <recint/recint.h>
 #include "givinteger.h"
 #include "montgomery-ruint.h"
+#include "modular.h"
+#include <signal.h>
+#include <sys/time.h>
+#include <unistd.h>
 
 using RecInt::ruint;
 
@@ -64,6 +68,10 @@ template <size_t K> struct OpenR : public Givaro::Montgomery<ruint<K>> {
 };
 
 #define V(name) else if (v == name)
+
+// per-request CPU-time watchdog (load-independent): see harness/c07_montgomery.C
+static void on_prof(int) { const char m[] = "WATCHDOG does-not-return\n"; ssize_t r = write(1, m, sizeof(m) - 1); (void)r; _exit(75); }
+static void arm(long sec) { struct itimerval it; it.it_interval.tv_sec = 0; it.it_interval.tv_usec = 0; it.it_value.tv_sec = sec; it.it_value.tv_usec = 0; setitimer(ITIMER_PROF, &it, 0); }
 
 // Every way of obtaining a Montgomery<ruint<K>> object with modulus p (line prefix "@<how>:"), built in place on the heap
 // (returning by value would run the copy constructor and repair what an assignment left stale).
@@ -237,6 +245,39 @@ template <size_t K> struct RunK {
         if (a.size() > 2) from_mpz(z, a[2]);
         bool haveElt = true;
         if (false) {}
+        else if (v.compare(0, 8, "R.vsmod.") == 0) {
+            // the library's NON-Montgomery ring of the same element type, same residues x, y, z in [0,p), same operation, both converted out
+            typedef Givaro::Modular<ruint<K>, ruint<K+1>> Plain;
+            // the plain ring's documented precondition (modular-implem.h: "ruint<K> | ruint<K+1> | 2^(2^K-1); because addition is done over ruint<K>")
+            if (p > Plain::maxCardinality()) { o << "NA"; return true; }
+            Plain Z(p); const std::string op = v.substr(8);
+            E a, b, c, A, B, C, R; F.init(a, x); F.init(b, y); F.init(c, z); r = c; Z.init(A, x); Z.init(B, y); Z.init(C, z); R = C;
+            bool flag = false; bool mf = false, pf = false;
+            if (op == "add") { F.add(r, a, b); Z.add(R, A, B); }
+            else if (op == "sub") { F.sub(r, a, b); Z.sub(R, A, B); }
+            else if (op == "mul") { F.mul(r, a, b); Z.mul(R, A, B); }
+            else if (op == "neg") { F.neg(r, a); Z.neg(R, A); }
+            else if (op == "inv") { F.inv(r, a); Z.inv(R, A); }
+            else if (op == "div") { F.div(r, a, b); Z.div(R, A, B); }
+            else if (op == "addin") { r = a; R = A; F.addin(r, b); Z.addin(R, B); }
+            else if (op == "subin") { r = a; R = A; F.subin(r, b); Z.subin(R, B); }
+            else if (op == "mulin") { r = a; R = A; F.mulin(r, b); Z.mulin(R, B); }
+            else if (op == "negin") { r = a; R = A; F.negin(r); Z.negin(R); }
+            else if (op == "invin") { r = a; R = A; F.invin(r); Z.invin(R); }
+            else if (op == "divin") { r = a; R = A; F.divin(r, b); Z.divin(R, B); }
+            else if (op == "axpy") { F.axpy(r, a, b, c); Z.axpy(R, A, B, C); }
+            else if (op == "axmy") { F.axmy(r, a, b, c); Z.axmy(R, A, B, C); }
+            else if (op == "maxpy") { F.maxpy(r, a, b, c); Z.maxpy(R, A, B, C); }
+            else if (op == "axpyin") { F.axpyin(r, a, b); Z.axpyin(R, A, B); }
+            else if (op == "axmyin") { F.axmyin(r, a, b); Z.axmyin(R, A, B); }
+            else if (op == "maxpyin") { F.maxpyin(r, a, b); Z.maxpyin(R, A, B); }
+            else if (op == "isZero") { F.mul(r, a, b); Z.mul(R, A, B); flag = true; mf = F.isZero(r); pf = Z.isZero(R); }
+            else if (op == "areEqual") { F.add(r, a, b); Z.add(R, A, B); flag = true; mf = F.areEqual(r, c); pf = Z.areEqual(R, C); }
+            else if (op == "isUnit") { flag = true; mf = F.isUnit(a); pf = Z.isUnit(A); }
+            else return false;
+            if (flag) o << mf << " " << pf; else { E t, u; o << hx(F.convert(t, r)) << " " << hx(Z.convert(u, R)); }
+            haveElt = false;
+        }
         V("R.ctor.p") { o << F.fields(); haveElt = false; }
         V("R.ctor.copy") { F_t G(F); o << G.fields(); haveElt = false; }
         V("R.ctor.assign") { F_t G(ruint<K>(3)); G = F; o << G.fields(); haveElt = false; }
@@ -307,10 +348,13 @@ template <size_t K> struct RunK {
 int main() {
     std::ios::sync_with_stdio(false);
     std::string line;
+    signal(SIGPROF, on_prof);
+    const long budget = getenv("C07_CPU_BUDGET") ? atol(getenv("C07_CPU_BUDGET")) : 120;
     while (std::getline(std::cin, line)) {
         std::istringstream in(line);
         std::string v; int K;
         if (!(in >> v >> K)) continue;
+        arm(budget);
         Args a; std::string t;
         while (in >> t) { mpz_class z; z.set_str(t, 0); a.push_back(z); }
         std::ostringstream o; bool ok = false;
@@ -321,7 +365,8 @@ int main() {
             case 9: ok = RunK<9>::go(v, a, o); break;
             default: break;
         }
-        if (!ok) std::cout << "UNKNOWN-VARIANT\n"; else std::cout << o.str() << "\n";
+        arm(0);
+        if (!ok) std::cout << "UNKNOWN-VARIANT\n" << std::flush; else std::cout << o.str() << "\n" << std::flush;
     }
     return 0;
 }
